@@ -1,7 +1,69 @@
+"""Stand-in for py-radix (not installable here): exact and longest-prefix match over IPv4/IPv6 prefixes."""
+import ipaddress
+
+
+class _Node(object):
+    def __init__(self, net):
+        self.network = str(net.network_address)
+        self.prefixlen = net.prefixlen
+        self.prefix = '%s/%d' % (self.network, self.prefixlen)
+        self.family = 2 if net.version == 4 else 10
+        self.data = {}
+
+
+def _net(p):
+    return ipaddress.ip_network(p, strict=False)
+
+
 class Radix(object):
-    def __init__(self): self.d = {}
-    def add(self, p): self.d[p] = True
-    def delete(self, p): self.d.pop(p, None)
-    def search_exact(self, p): return self.d.get(p)
-    def search_best(self, p): return None
-    def __contains__(self, p): return p in self.d
+    def __init__(self):
+        self._d = {}
+
+    def add(self, network=None, masklen=None, packed=None):
+        n = _net(network if masklen is None else '%s/%d' % (network, masklen))
+        if n not in self._d:
+            self._d[n] = _Node(n)
+        return self._d[n]
+
+    def delete(self, network=None, masklen=None, packed=None):
+        n = _net(network if masklen is None else '%s/%d' % (network, masklen))
+        if n not in self._d:
+            raise KeyError('match not found')
+        del self._d[n]
+
+    def search_exact(self, network=None, masklen=None, packed=None):
+        n = _net(network if masklen is None else '%s/%d' % (network, masklen))
+        return self._d.get(n)
+
+    def search_best(self, network=None, masklen=None, packed=None):
+        n = _net(network if masklen is None else '%s/%d' % (network, masklen))
+        best = None
+        for k, node in self._d.items():
+            if k.version == n.version and k.prefixlen <= n.prefixlen and n.subnet_of(k):
+                if best is None or k.prefixlen > best[0].prefixlen:
+                    best = (k, node)
+        return best[1] if best else None
+
+    def search_worst(self, network=None, masklen=None, packed=None):
+        n = _net(network if masklen is None else '%s/%d' % (network, masklen))
+        worst = None
+        for k, node in self._d.items():
+            if k.version == n.version and k.prefixlen <= n.prefixlen and n.subnet_of(k):
+                if worst is None or k.prefixlen < worst[0].prefixlen:
+                    worst = (k, node)
+        return worst[1] if worst else None
+
+    def nodes(self):
+        return list(self._d.values())
+
+    def prefixes(self):
+        return [n.prefix for n in self._d.values()]
+
+    def __contains__(self, key):
+        try:
+            return self.search_exact(key) is not None
+        except ValueError:
+            return False
+
+    def __iter__(self):
+        return iter(self._d.values())
